@@ -6,12 +6,17 @@ from props import tokcommon as tc
 PROP = "C14"
 ENGINE = "tok"
 USES_TRANSLATOR = True
-LEAN_TARGETS = ["H5V.Props.C14"]
-AUDIT_IMPORTS = ["H5V.Props.C14"]
+LEAN_TARGETS = ["H5V.Props.C14", "H5V.Props.C14Run"]
+AUDIT_IMPORTS = ["H5V.Props.C14Run"]
 THEOREMS = ["H5V.Props.C14." + t for t in [
     "C14_table", "C14_c1", "C14_lookup_exact", "C14_lookup_prefix", "C14_lookup_none", "C14_rows_wellformed",
     "C14_numeric_accumulator", "C14_finish_numeric", "Walk.C14_named_longest", "Walk.C14_walk_is_do_named",
-    "Walk.lookup_prefix_closed"]]
+    "Walk.lookup_prefix_closed",
+    # run level (Props/C14Run.lean, spec Spec/CharRef.lean written from the standard 13.2.5.72-80): every reference resolves
+    # to the standard's characters, consumed length and error flag; EOF variant; any chunking
+    "C14_run_none", "C14_run_named", "C14_run_numeric", "C14_run_resolves", "C14_crRun", "C14_run_in_tokenizer",
+    "C14_amp_starts_reference", "C14_amp_resolves", "C14_spec_total_at_eof", "C14_eof_resolves", "C14_spec_decision_final",
+    "C14_spec_consumed_le", "C14_every_reference", "C14_run_chunked"]]
 TRUSTED = [
     "Lean 4 kernel (decide +kernel over the 2231-row table); axioms ⊆ {propext, Classical.choice, Quot.sound}",
     "tools/extract.py regenerates lean/H5V/Gen/Entities.lean + C1.lean from web_atoms/entities.rs, lib.rs on every run",
